@@ -5,6 +5,7 @@
   per-request fault plan | external write, i.e. every interleaving of the two clients' operation lists.
 -/
 import Basyx.Lemmas.Couch
+import Basyx.Lemmas.CouchReplica
 import Basyx.Gen.Backends
 namespace Basyx.Couch
 open Basyx
@@ -1512,6 +1513,35 @@ example :
 -- map refinement hypotheses: present / missing documents
 example : abs (run init staleHist) idA = some 0 ∧ abs (run init staleHist) idSlash = none := by decide
 
+
+/-! ### the replica the application holds stays THE replica (round 8) -/
+
+/-- **A discard that fails changes nothing on the client side**: whatever the failure (conflict on a stale revision, a
+    transport or server fault at the HEAD or the DELETE request, a missing revision) - the replicas, the object cache and
+    the known revisions are exactly what they were. -/
+theorem c16_failed_discard_keeps_client (w : W) (h : Nat) (safe : Bool) (hr : isRaise (discard w h safe).2) :
+    (discard w h safe).1.cl = w.cl := by
+  rcases discard_unit_or_cl w h safe with hu | hc
+  · rw [hu] at hr; simp [isRaise] at hr
+  · exact hc
+
+/-- **A retrieval hands out the live replica**: when the cache files `i` under a live replica whose source is `i`'s
+    document, the object a retrieval returns is that very replica (refreshed), and the cache is unchanged. -/
+theorem c16_get_returns_live_replica (w : W) (i : Ident) (d : Data) (h : Nat) (old : Obj)
+    (hc : AList.get i w.cl.cache = some h) (ho : getObj w h = some old) (hs : old.source = some (quote i)) :
+    (adopt w i d).2 = .handle h ∧ (adopt w i d).1.cl.cache = w.cl.cache := by
+  simp [adopt, hc, ho, hs, setObj]
+
+/-- **… also after a discard that failed**: the replica the application holds is still the one every later retrieval
+    returns - there are never two replicas of one document of which the stale one could overwrite what the other read
+    (what seeded change C16-r8-1 - eviction from the cache BEFORE the DELETE request - breaks). -/
+theorem c16_replica_survives_failed_discard (w : W) (h : Nat) (safe : Bool) (x : Obj) (hx : getObj w h = some x)
+    (hs : x.source = some (quote x.id)) (hc : AList.get x.id w.cl.cache = some h) (hr : isRaise (discard w h safe).2) (d : Data) :
+    (adopt (discard w h safe).1 x.id d).2 = .handle h := by
+  have hcl := c16_failed_discard_keeps_client w h safe hr
+  refine (c16_get_returns_live_replica (discard w h safe).1 x.id d h x ?_ ?_ hs).1
+  · rw [hcl]; exact hc
+  · unfold getObj; rw [hcl]; exact hx
 
 /-! ### The document name is `quote(identifier, safe='')`
 
